@@ -69,12 +69,16 @@ let run_file_script (r : M.route) (bytes : Z.t list) (script : string) : string 
   | M.Ok p0 ->
     let p = ref p0 in
     let outs = ref ["init:0"] in
+    (* after a failing operation the cursor is unknown (the C parser may have updated it half-way): only a rewind
+       or a lookup, which start over from the first block and do not depend on the cursor, are run until one of them
+       has succeeded; the model keeps the parser it had (its bytes, route and first-block offset are what they use) *)
     let stop = ref false in
     let emit s = outs := s :: !outs; (match String.split_on_char ':' s with
-        | _ :: c :: _ when String.length c > 0 && (c.[0] = 'e' || c.[0] = 'o' || c.[0] = 'f') -> stop := true
+        | k :: c :: _ when String.length c > 0 && (c.[0] = 'e' || c.[0] = 'o' || c.[0] = 'f') -> ignore k; stop := true
+        | k :: _ when k = "r" || k = "f" -> stop := false
         | _ -> ()) in
     List.iter (fun tok ->
-        if tok = "" || tok = "-" || !stop then ()
+        if tok = "" || tok = "-" || (!stop && tok.[0] <> 'r' && tok.[0] <> 'f' && tok.[0] <> 'v') then ()
         else match tok.[0] with
           | 'c' -> emit (pr "c:%s,%d,%d" (string_of_z (!p).M.p_type) (int_of_nat (!p).M.p_len) (int_of_nat (!p).M.p_body))
           | 'v' -> emit (pr "v:%s" (string_of_z (!p).M.p_version))
